@@ -35,12 +35,15 @@ CONFIGS = {
     'E': ['--no-default-features', '--features', OPT],
     # the fuzzer crate (U3): its own feature selection of the library (derive, bit-vec, fuzz)
     'F': ['-p', 'codec-fuzzer'],
+    # the derive macros alone (what a crate that asks only for `derive` gets)
+    'G': ['--features', 'derive'],
 }
 CRATES_OF = {
     'A': ['parity_scale_codec'], 'B': ['parity_scale_codec'], 'C': ['parity_scale_codec'],
     'D': ['parity_scale_codec', 'parity_scale_codec_derive'],
     'E': ['parity_scale_codec'],
     'F': ['codec_fuzzer'],
+    'G': ['parity_scale_codec'],
 }
 
 
@@ -429,6 +432,7 @@ class Facts:
         self.consts = {c['path']: c for c in d['consts']}
         self.traits = {t['path']: t for t in d['traits']}
         self.fns = d['fns']
+        self.root_exports = d.get('root_exports')
         self.by_path = {}
         for f in self.fns:
             self.by_path.setdefault(f['path'], f)
